@@ -13,7 +13,10 @@ through the Python API.  What is pinned here:
     `DatabaseService._process_sql` (`C15_gen_callers_counter_writers`); a new one breaks the build.
 -/
 import PrimaiteModel.Gen.FileSystemCallers
+import PrimaiteModel.Props.C15Create
+import PrimaiteModel.Props.C15Disjoint
 namespace Primaite.FileSystem
+open Gen.FileSystemMethods
 
 /-- `Class.method` for every method of the file-system module that `fsxlate.py` translates (its table `TRANSLATED`). -/
 def translatedMutators : List String :=
@@ -41,5 +44,58 @@ theorem C15_gen_callers_counter_writers : Gen.FileSystemCallers.directCounterWri
       ("simulator/system/services/database/database_service.py", "DatabaseService._process_sql", "self.file_system.num_file_deletions += 1") ] := rfl
 
 theorem C15_gen_callers_nonempty : Gen.FileSystemCallers.callSites ≠ [] := by decide
+
+/-! ### what the callers can do to the structure, and that it keeps `Inv` (second shift of round 7) -/
+
+/-- The methods outside code calls are exactly these six or fewer: four structural ones (below) and two that the extractor checks to be
+structurally inert. A caller that starts using another method (move_file, add_file, a Folder-level mutator …) breaks this until the
+theorem below is extended to it. -/
+theorem C15_gen_callers_covered :
+    ∀ m ∈ Gen.FileSystemCallers.mutatorsUsed,
+      m ∈ ["FileSystem.create_file", "FileSystem.create_folder", "FileSystem.delete_file", "FileSystem.copy_file",
+           "FileSystem.scan", "FileSystem.reveal_to_red"] := by decide
+
+/-- **Each structural method that outside code calls, AS TRANSLATED FROM THE SOURCE, keeps the invariant** — for every state satisfying
+`Inv` and all arguments (also when `create_file` raises: the state at the raise). -/
+theorem C15_callers_methods_preserve_inv {s : State} (h : Inv s) (F x G : Name) (force : Bool) :
+    Inv (fsCreateFile s x F force).1 ∧ Inv (fsCreateFolder s F).1 ∧ Inv (fsDeleteFile s F x).1 ∧ Inv (fsCopyFile s F x G).1 := by
+  refine ⟨?_, ?_, ?_, ?_⟩
+  · rw [(C15_gen_create_file h F x force).1]; exact inv_apiCreateFile h F x force
+  · rw [C15_gen_create_folder]; exact (createFolder_spec h F).1
+  · rw [(C15_gen_fs_delete_restore_file s F x).1]; exact inv_deleteFile h F x
+  · rw [(C15_gen_copy_file s F x G).1]; exact inv_apiCopyFile h F x G
+
+/-- A call a service / application makes on a file system (the four structural methods of the inventory). -/
+inductive CallerCall
+  | createFile (F x : Name) (force : Bool)
+  | createFolder (F : Name)
+  | deleteFile (F x : Name)
+  | copyFile (F x G : Name)
+deriving DecidableEq, Repr
+
+/-- Its effect on the structure: the TRANSLATED method (an exception raised by `create_file` is caught or propagates; the state stays). -/
+def callerStep (s : State) : CallerCall → State
+  | .createFile F x force => (fsCreateFile s x F force).1
+  | .createFolder F => (fsCreateFolder s F).1
+  | .deleteFile F x => (fsDeleteFile s F x).1
+  | .copyFile F x G => (fsCopyFile s F x G).1
+
+/-- **Whatever sequence of such calls a caller makes** (restore_backup = `[deleteFile downloads db, …, deleteFile database db, copyFile
+downloads db database]`, FTP store = `[createFile F x false]`, …), from any state satisfying `Inv`: `Inv` afterwards. -/
+theorem C15_callers_any_sequence_preserves_inv (cs : List CallerCall) {s : State} (h : Inv s) : Inv (cs.foldl callerStep s) := by
+  induction cs generalizing s with
+  | nil => exact h
+  | cons c cs ih =>
+    apply ih
+    cases c with
+    | createFile F x force => exact (C15_callers_methods_preserve_inv h F x x force).1
+    | createFolder F => exact (C15_callers_methods_preserve_inv h F F F false).2.1
+    | deleteFile F x => exact (C15_callers_methods_preserve_inv h F x x false).2.2.1
+    | copyFile F x G => exact (C15_callers_methods_preserve_inv h F x G false).2.2.2
+
+/-- Non-vacuity: the fresh file system satisfies `Inv`; restore_backup's call sequence on it. -/
+example : Inv ([CallerCall.createFile "database" "database.db" false, .createFile "downloads" "database.db" false,
+    .deleteFile "database" "database.db", .copyFile "downloads" "database.db" "database"].foldl callerStep (init none)) :=
+  C15_callers_any_sequence_preserves_inv _ (C15_any_inv_reachable_full none []).1
 
 end Primaite.FileSystem
